@@ -345,7 +345,33 @@ func resolutionFromDefinition(def *resolutionDef) *Resolution {
 	}
 }
 
+// maxStoredTableDepth is the deepest nesting of symbol tables that is stored.
+// A table is stored inside its parent, two levels of JSON for each, and
+// encoding/json reads at most 10000 levels: what is nested more deeply than
+// this could be written and not be read back.
+const maxStoredTableDepth = 4000
+
+// tableDepth returns the number of tables on the longest way down from the
+// table, itself included.
+func tableDepth(table *SymbolTable) int {
+	deepest := 0
+	for _, child := range table.children {
+		if depth := tableDepth(child); depth > deepest {
+			deepest = depth
+		}
+	}
+	return deepest + 1
+}
+
 func stateFromCode(code *Code) (*state, error) {
+	// The stored form begins with the main code: every other code object
+	// names its parent, which the loader must have seen before
+	if code.parent != nil {
+		return nil, fmt.Errorf("marshal error: only the main code can be marshalled (got the code of %q, which has a parent)", code.name)
+	}
+	if depth := tableDepth(code.symbols); depth > maxStoredTableDepth {
+		return nil, fmt.Errorf("marshal error: blocks and functions are nested too deeply to be stored (%d levels, limit %d)", depth, maxStoredTableDepth)
+	}
 	state := &state{
 		Code:        []*codeDef{},
 		SymbolTable: definitionFromSymbolTable(code.symbols),
